@@ -30,6 +30,13 @@ func caseOptions(c Case) []autog.Option {
 	default:
 		panic("bad p2 " + c.P2)
 	}
+	switch c.P3 {
+	case "noop":
+		opts = append(opts, autog.WithOrdering(autog.OrderingNoop))
+	case "":
+	default:
+		panic("bad p3 " + c.P3)
+	}
 	switch c.P4 {
 	case "sink":
 		opts = append(opts, autog.WithPositioning(autog.PositioningSinkColoring))
